@@ -126,6 +126,28 @@ def decodeNode : Nat → Bytes → Except DErr PNode
         | some 17 => decodeFullWith (decodeNode f) elems
         | _ => .error .err
 
+/-! ## trie/trie.go resolveHash + trie/database.go Node: reloading a committed trie -/
+
+/-- resolve every hash reference of a decoded node through the node database `db` (hash ↦ blob), as a full iteration
+    over a trie reopened with `New(root, db)` does (`resolveHash` → `db.Node` → `mustDecodeNode`, recursively).
+    `none` = missing node, undecodable blob, or out of fuel. -/
+def loadP (db : Bytes → Option Bytes) : Nat → PNode → Option Node
+  | 0, _ => none
+  | _ + 1, .nil => some .nil
+  | _ + 1, .value v => some (.value v)
+  | f + 1, .hash h =>
+    match db h with
+    | none => none
+    | some blob =>
+      match decodeNode (blob.length + 1) blob with
+      | .ok pn => loadP db f pn
+      | .error _ => none
+  | f + 1, .short k c => (loadP db f c).map (Node.short k)
+  | f + 1, .full cs =>
+    if (List.finRange 17).all (fun i => (loadP db f (cs i)).isSome) then
+      some (.full fun i => (loadP db f (cs i)).getD .nil)
+    else none
+
 /-! ## trie/proof.go -/
 
 inductive GetRes where
